@@ -1,5 +1,7 @@
 pub mod c02;
 pub mod c09;
+pub mod c16;
+pub mod c17;
 pub mod common;
 
 use crate::report::{Evidence, Stats, report_violations, stats_to_json};
@@ -57,6 +59,8 @@ pub fn dispatch(id: &str) -> Option<(fn(Tier) -> i32, fn(&Value) -> String)> {
     match id {
         "C02" => Some((c02::run, common::replay_lockstep)),
         "C09" => Some((c09::run, c09::replay)),
+        "C16" => Some((c16::run, common::replay_lockstep)),
+        "C17" => Some((c17::run, c17::replay)),
         _ => None,
     }
 }
